@@ -216,6 +216,30 @@ mod verif_validate_width {
         }
         println!("VALIDATED width_strings={n}");
     }
+
+    #[test]
+    fn replace_model_vs_std() {
+        use crate::verif_common::{stub_repeat, stub_replace_tab};
+        let alpha = ["a", "\t", "\u{e9}", " "];
+        let mut n = 0u64;
+        let mut stack: Vec<String> = vec![String::new()];
+        while let Some(s) = stack.pop() {
+            for w in 0..=9usize {
+                let to = " ".repeat(w);
+                assert_eq!(stub_repeat(" ", w), to);
+                assert_eq!(stub_replace_tab(&s, '\t', &to), s.replace('\t', &to), "replace model disagrees on {:?} width {}", s, w);
+                n += 1;
+            }
+            if s.chars().count() < 5 {
+                for a in alpha.iter() {
+                    let mut t = s.clone();
+                    t.push_str(a);
+                    stack.push(t);
+                }
+            }
+        }
+        println!("VALIDATED replace_cases={n}");
+    }
 }
 '''
 
@@ -238,6 +262,8 @@ def main():
     common_rs = native(open(os.path.join(HARNESS_DIR, "lib", "common.rs")).read())
     # formatting_options is nightly-only: drop the render helper natively
     common_rs = re.sub(r"    /// Render a Display value.*?\n    }\n", "", common_rs, flags=re.S)
+    # core::str::pattern::Pattern is nightly-only: natively the model takes the char pattern the code under test uses
+    common_rs = common_rs.replace("stub_replace_tab<P: core::str::pattern::Pattern>(s: &str, _from: P,", "stub_replace_tab(s: &str, _from: char,")
     with open(os.path.join(d, "src", "lib.rs"), "a") as f:
         f.write("\n" + common_rs + "\n" + WIDTH_TEST)
     with open(os.path.join(d, "src", "in_memory.rs"), "a") as f:
@@ -249,7 +275,7 @@ def main():
     vals = re.findall(r"VALIDATED (\w+)=(\d+)", out)
     for k, v in vals:
         say("validate_stubs: %s = %s" % (k, v))
-    ok = p.returncode == 0 and len(vals) == 3
+    ok = p.returncode == 0 and len(vals) == 4
     if not ok:
         say(out[-3000:])
         say("validate_stubs: FAILED")
